@@ -17,6 +17,12 @@ T1 = [('Bashlex.Props.C09_sound', 'Bashlex.Props.C09'), ('Bashlex.Props.C09_exac
       ('Bashlex.LR.Raw.check_sound', 'Bashlex.LR.Check'),
       ('Bashlex.Props.termNames_agree', 'Bashlex.Props.C09'), ('Bashlex.Props.actions_covered', 'Bashlex.Props.C09')]
 
+LEXM = 'Bashlex.Props.Lex'
+# tie of the hand-written lexical constants (token types, reserved words, syntax table, flags, option defaults) to the
+# imported package: decided by the kernel against Gen/Lex.lean, which the translator regenerates on every run
+TLEX = [('Bashlex.Props.Lex.' + t, LEXM) for t in ['lex_tables_agree', 'signatures_agree', 'wordFlags_known', 'parserFlags_known', 'tokType_all_complete']]
+T1 = T1 + TLEX
+
 C01M = 'Bashlex.Props.C01'
 T_C01 = [('Bashlex.C01.' + t, C01M) for t in ['C01_partial', 'C01_partial_single', 'C01_partial_split', 'C01_parserRun', 'C01_conditional',
          'expand_progress', 'sat_expandwordinternal', 'parseLoop_exn', 'shAction_sound', 'C01_expand_terminates', 'C01_parse_terminates',
@@ -68,33 +74,33 @@ T6 = [('Bashlex.Q.run_congr', QC), ('Bashlex.Q.run_strict_irrelevant', QC), ('Ba
 C13M = 'Bashlex.Props.C13'
 T_C13 = [('Bashlex.C13.' + t, C13M) for t in ['C13_independence', 'C13_first_part', 'C13_first_part_noEOF', 'C13_partial', 'C13_partial_exn', 'C13_partial_conditional',
          'parse_unfold', 'parseLoop_eq', 'Loop.det', 'Loop.total', 'ofInput_prefix']] + [('Bashlex.nextIndex_shift', C13M), ('Bashlex.Node.shift_shift', C13M), ('Bashlex.Node.lastHeredocEnd_shift', C13M)]
-reg('C13', 'propchecks.relprops', 'proof', T_C13 + [('Bashlex.C14.C13_partial_blank', 'Bashlex.Props.C14'), ('Bashlex.C14.blankSkip_run', 'Bashlex.Props.C14')] + [('Bashlex.Q.run_prefix', QC), ('Bashlex.runParser_prefix', QC), ('Bashlex.Q.run_prefix_idx', QC)] + T1[:1], [ASCII, DEPTH, CORR,
+reg('C13', 'propchecks.relprops', 'proof', T_C13 + [('Bashlex.C14.C13_partial_blank', 'Bashlex.Props.C14'), ('Bashlex.C14.blankSkip_run', 'Bashlex.Props.C14')] + [('Bashlex.Q.run_prefix', QC), ('Bashlex.runParser_prefix', QC), ('Bashlex.Q.run_prefix_idx', QC)] + (T1[:1] + TLEX), [ASCII, DEPTH, CORR,
     'C13_independence: for A whose runs are local (no read beyond its own text: parseLocal, decidable; implied by "no _getc returned None") parse(A ++ R) = parse(A) followed by the shifted parts of a '
     'fresh parse of the rest from the restart index; only that index flows between top-level commands. Replacing the rest by B itself when blank lines precede it (BlankSkip: one parser run commutes '
     'with translation past a blank prefix) is an explicit hypothesis of C13_partial_conditional and is decided per input'])
 C14M = 'Bashlex.Props.C14'
 T_C14 = [('Bashlex.C14.' + t, C14M) for t in ['runParser_shift', 'runParser_shift_ok', 'blankSkip_run', 'BlankSkip_conditional', 'C13_partial_blank', 'sim_nextToken', 'sim_parserRun', 'actionsHyp', 'expRel_of_npRel',
          'shiftSafe_ok', 'consume', 'D19_witness', 'example_shift']]
-reg('C14', 'propchecks.relprops', 'proof', T_C14 + T1[:1], [ASCII, DEPTH, CORR,
+reg('C14', 'propchecks.relprops', 'proof', T_C14 + (T1[:1] + TLEX), [ASCII, DEPTH, CORR,
     'runParser_shift (unconditional relational walk of the whole tokenizer, word expansion, all 39 actions, the LR engine and nested parsers): one parser run on pre ++ B, pre made of blanks, tabs and newlines, is the run on B with every '
     'span moved by |pre| (a top-level ParsingError carries pre ++ src and p + |pre|; nested errors are identical), for proceedonerror = false (D19: the constant (0,0) span of time, kernel-checked witness). This is layout invariance for a '
     'blank prefix and the core of C14; layout edits BETWEEN tokens (the general statement), comments in the prefix and proceedonerror = true are decided per input by the relation'])
 C16M = 'Bashlex.Props.C16'
 T_C16 = [('Bashlex.C16.' + t, C16M) for t in ['C16_partial', 'C16_partial_conditional', 'frameHyp', 'parseI_sound', 'parseI_limit', 'parserRunI_rel', 'rel_action', 'rel_run', 'rel_expandwordWith']]
 T_C16 += [('Bashlex.C16.' + t, 'Bashlex.Props.C16.Stable') for t in ['C16_total_checked', 'heredocStable_checked', 'heredocStable_of_spans', "C16_partial'", 'nextIndex_prune', 'parse_wend']]
-reg('C16', 'propchecks.relprops', 'proof', T_C16 + T1[:1], [ASCII, DEPTH, CORR,
+reg('C16', 'propchecks.relprops', 'proof', T_C16 + (T1[:1] + TLEX), [ASCII, DEPTH, CORR,
     'C16_total_checked: heredocStable is now DERIVED from the span theorem (every node below a word ends inside the word - parse_wend, unconditional - and the outermost word ends before the part or before a surviving here-document body); the remaining conditions are decidable and per input: flagsNeutral, noD19 (no constant-span time node: a limit of the span proof, not a defect) and rootEndsChecked. ' +
     'C16_partial holds under two decidable per-input conditions: flagsNeutral k s o (no nested parse that the limited run skips changes the parser-state flags it shares with its caller - copy.copy(parserstate) is '
     'shallow; when it fails the known divergences go the allowed way: the limited parse accepts what the unlimited one rejects) and heredocStable k parts (pruning does not move the restart index of parse())'])
 reg('C17', 'propchecks.relprops', 'proof', [('Bashlex.C13.' + t, C13M) for t in ['parsesingle_eq_head', 'parsesingle_exn_iff', 'parse_exn_of_parsesingle_exn', 'parsesingle_of_parse_exn']] + T6 + [('Bashlex.parse_strict_irrelevant', QC), ('Bashlex.parse_proceed_irrelevant', QC),
-      ('Bashlex.parsesingle_strict_irrelevant', QC), ('Bashlex.parsesingle_proceed_irrelevant', QC)], [ASCII, DEPTH, CORR])
+      ('Bashlex.parsesingle_strict_irrelevant', QC), ('Bashlex.parsesingle_proceed_irrelevant', QC)] + TLEX, [ASCII, DEPTH, CORR])
 
 C11M = 'Bashlex.Props.C11'
 T_C11 = [('Bashlex.C11.' + t, C11M) for t in ['nextToken_good', 'gather_good', 'pError_ht', 'tok_no_init_assert', 'C11_later', 'topParsing_source', 'topParsing_eof', 'topParsing_token',
          'C11_parserRun_conditional', 'no_init_assert_conditional', 'C11_parse_conditional', 'C11_toplevel_conditional', 'C11_first_conditional', 'C11_position_conditional',
          "C01_partial'_conditional", 'witness_later', 'witness_nested', 'witness_heredoc']]
 T_C11T = [('Bashlex.C11.' + t, 'Bashlex.Props.C11Total') for t in ['C11_parserRun', 'no_init_assert', 'C11_parse', 'C11_parsesingle', "C01_partial'", 'C11_toplevel', 'C11_first', 'C11_position', "C11_later'", 'parserRun_good4']]
-reg('C11', 'propchecks.c11', 'proof', T_C11T + T_C11 + T1[:1] + [('Bashlex.Q.run_touched_irrelevant', QC), ('Bashlex.History.results_eq_solo', QC)], [ASCII, DEPTH, CORR,
+reg('C11', 'propchecks.c11', 'proof', T_C11T + T_C11 + (T1[:1] + TLEX) + [('Bashlex.Q.run_touched_irrelevant', QC), ('Bashlex.History.results_eq_solo', QC)], [ASCII, DEPTH, CORR,
     'Props/C11Total.lean: the hypothesis TokLen is GONE (the token-text theorem tokText supplies it; the invariant carries an empty look-ahead slot): C11_parse / C11_parsesingle / C11_parserRun (every escaping ParsingError at every depth has 0 <= p <= len(src): the assert of ParsingError.__init__ can never fire - no_init_assert), C11_first / C11_toplevel (a top-level error carries the input as its source; the here-document error the input with the appended newline), C11_position (unexpected EOF => p = len(src); unexpected token => p = lexpos of a delivered token with that repr) are unconditional for parse, parsesingle and runParser. ' +
     'unconditional: the tokenizer keeps its cursor inside the line (Good), every delivered token starts inside the line, every ParsingError raise site of the tokenizer and both p_error messages pass 0 <= p <= len(src) '
     '(the assert of ParsingError.__init__ cannot fire there), an error of a later part is the unchanged error of a run on the suffix (C11_later, finding D15 stated exactly). Conditional on TokLen (a backquote at index k of a '
@@ -111,7 +117,7 @@ reg('C15', 'propchecks.c15', 'proof', [('Bashlex.Props.C15', C15M), ('Bashlex.Pr
 C06M = 'Bashlex.Props.C06'
 T_C06 = [('Bashlex.C06.' + t, C06M) for t in ['C06_plain', 'C06_total', 'C06_partial', 'C06_partial_sat', 'C06_param', 'C06_param_spec',
          'expandwordinternal_plain', 'sat_expandwordinternal_param', 'contGo_hasContinuation']]
-reg('C06', 'propchecks.c06', 'proof', T_C06 + T1[:1], [ASCII, DEPTH, CORR,
+reg('C06', 'propchecks.c06', 'proof', T_C06 + (T1[:1] + TLEX), [ASCII, DEPTH, CORR,
     'C06_partial/C06_param: the value of a word token is Spec.quoteRemove of its text for every balanced token text free of the recorded defect features K1-K5, K8, K9 '
     '(and K7x, quotes inside ${...}, for words with parameters) whose QUOTED flag is consistent; words with command/process substitutions, backquotes, tildes and '
     'here-document bodies are decided per input against the same Lean definition'])
@@ -119,7 +125,7 @@ reg('C06', 'propchecks.c06', 'proof', T_C06 + T1[:1], [ASCII, DEPTH, CORR,
 C07M = 'Bashlex.Props.C07'
 T_C07 = [('Bashlex.C07.' + t, C07M) for t in ['C07_partial', 'C07_partial_single', 'C07_partial_subst', 'C07_word', 'C07_exact', "C07_exact'", 'C07_protected', 'C07_protected_internal', 'C07_nested',
          'sat_expandwordinternal', 'Reach.sorted', 'Reach.opener_accounted', 'Reach.escaped_not_head', 'dollar_span_tight', 'dollar_span_loose', 'stringextract_first', 'parserRun_G']]
-reg('C07', 'propchecks.c07', 'proof', T_C07 + T1[:1], [ASCII, DEPTH, CORR,
+reg('C07', 'propchecks.c07', 'proof', T_C07 + (T1[:1] + TLEX), [ASCII, DEPTH, CORR,
     'C07_partial: every word/assignment node of every successful parse (any depth) comes from a delivered token and its substitution parts are exactly the nested parser runs on the text after each opener the scan reaches, '
     'shifted to their offset, in scan order, disjoint, inside the word (PartsOK); C07_protected: a wholly single-quoted word and a word whose expansion characters are all backslash-escaped have no parts, for every nested parser. '
     'NOT proved: that the nested run (inherited last tokens, shared parser-state flags, the ")" end token) equals the stand-alone parse of the enclosed text, and that the token value is the source text - both decided per input; '
@@ -129,7 +135,7 @@ C10M = 'Bashlex.Props.C10'
 T_C10 = [('Bashlex.C10.' + t, C10M) for t in ['readline_spec', 'makeheredoc_spec', 'gather_spec', 'specGather_nil', 'specGather_cons', 'specGatherS_fifo',
          'gather_beyond_end', 'readtoken_gather_slot_empty', 'ofInput_noFinalBackslash', 'specHeredoc_value_suffix', 'specHeredoc_cursor',
          'specHeredoc_slice', 'specHeredoc_lines', 'specHeredoc_none', 'gather_top_eq_local', 'SimEq.top_eq_local']]
-reg('C10', 'propchecks.c10', 'proof', T_C10 + T1[:1], [ASCII, CORR,
+reg('C10', 'propchecks.c10', 'proof', T_C10 + (T1[:1] + TLEX), [ASCII, CORR,
     'the theorems cover the reader (readline, makeheredoc, gatherheredocuments: FIFO pairing, body = lines up to the first line equal to the delimiter, span, cursor) '
     'given the queue of pending redirects; WHEN the parser queues a redirect relative to the tokenizer gathering (LALR look-ahead, defect D11) and quote removal of '
     'the delimiter (the raw token is compared) are decided per input'])
@@ -142,7 +148,7 @@ T7P = [('Bashlex.Pool.exec_value', QC), ('Bashlex.Pool.exec_pure', QC), ('Bashle
        ('Bashlex.Env.answer_eqModStore', QC), ('Bashlex.Q.run_touched_irrelevant', QC)]
 reg('C19', 'propchecks.c19', 'proof', T7P + [('Bashlex.Props.C20.no_unlisted_shared_write', 'Bashlex.Props.C20')], [ASCII, CORR, 'the theorem is about the abstract interleaving model (atomic queries on one shared store); it cannot exhibit CPython preemption points, the atomicity of defaultdict.__missing__ under the GIL, or free-threaded builds: those are observed under the deterministic scheduler and stress runs'])
 
-reg('C02', 'propchecks.c02', 'translation_validation', T1[:1], [ASCII, CORR, 'the expected tree is a Lean definition evaluated per generated case (translation-validation strength), not a theorem over all trees'])
+reg('C02', 'propchecks.c02', 'translation_validation', (T1[:1] + TLEX), [ASCII, CORR, 'the expected tree is a Lean definition evaluated per generated case (translation-validation strength), not a theorem over all trees'])
 
 C20M = 'Bashlex.Props.C20'
 reg('C20', 'propchecks.c20', 'proof', [('Bashlex.Props.C20.' + t, C20M) for t in ['C20_static', 'no_effect_reachable', 'no_effect_reachable_guarded', 'no_unlisted_shared_write', 'reach_complete', 'closure_sound', 'engine_call_ok', 'yacc_args_ok', 'imports_ok', 'import_effects_listed', 'unresolved_listed', 'shared_objects_known']],
